@@ -59,6 +59,8 @@ HIST_CHILDREN = {
                                      ["z", "nor", ["a", "y"], True]]},
     "withbb": {"name": "withbb", "nodes": [["a", "input", [], False], ["q", "buf", [], False], ["y", "xor", ["a", "q"], True]],
                "bbs": [["m", "leaf", ["i"], ["o"], {"i": "a", "o": "q"}]]},
+    "withbb2": {"name": "withbb2", "nodes": [["a", "input", [], False], ["nq", "buf", [], False], ["y", "nand", ["a", "nq"], True]],
+                "bbs": [["m", "leaf2", ["ck", "sck"], ["q", "nq"], {"ck": "a", "sck": "a", "nq": "nq"}]]},
     "feed": {"name": "feed", "nodes": [["a", "input", [], True], ["y", "not", ["a"], True]]},
     "const": {"name": "const", "nodes": [["k", "1", [], False], ["a", "input", [], False], ["y", "nand", ["a", "k"], True]]},
 }
@@ -324,10 +326,25 @@ def run_history(acc, ops, site, strip=True):
             return False
     if strip and c.blackboxes:
         case = {"kind": "history", "ops": ops, "site": site}
-        pins_in = sorted({p for b in c.blackboxes.values() for p in b.inputs()})
-        for ign in [None] + ([pins_in[0], pins_in] if pins_in else []):
+        for ign in strip_ignores(c):
             check_strip(acc, c, insts, case, ign)
     return True
+
+
+def strip_ignores(c):
+    """None, every input pin name alone (str and list form), all input pins, and every UNCONNECTED output pin name."""
+    pins_in = sorted({p for b in c.blackboxes.values() for p in b.inputs()})
+    out = [None]
+    for p in pins_in:
+        out += [p, [p]]
+    if len(pins_in) > 1:
+        out.append(pins_in)
+    for k, b in c.blackboxes.items():
+        for p in sorted(b.outputs()):
+            if not c.graph.succ[f"{k}.{p}"] and not any(c.graph.succ[f"{k2}.{p}"] for k2, b2 in c.blackboxes.items() if p in b2.outputs()):
+                if p not in out:
+                    out.append(p)
+    return out
 
 
 def run_single(job, acc):
@@ -338,7 +355,7 @@ def run_single(job, acc):
             for gates in space.circuits(I, G, max_arity=ar, min_gates=1):
                 d = space.to_desc(I, gates, outputs="sinks", name="child")
                 yield d
-        for k in ("withbb", "feed", "const", "two"):
+        for k in ("withbb", "withbb2", "feed", "const", "two"):
             yield HIST_CHILDREN[k]
 
     for _idx, child in space.chunk(children(), job["chunk"], job["of"]):
@@ -444,7 +461,6 @@ def replay(case, job):
             break
     if ok and c.blackboxes:
         ign = case.get("strip_ignore", "__all__")
-        pins_in = sorted({p for b in c.blackboxes.values() for p in b.inputs()})
-        for ig in ([None] + ([pins_in[0], pins_in] if pins_in else []) if ign == "__all__" else [ign]):
+        for ig in (strip_ignores(c) if ign == "__all__" else [ign]):
             check_strip(acc, c, insts, {"kind": "history", "ops": ops}, ig)
     return acc.result()
